@@ -168,3 +168,54 @@ Example C11_oracle_hypotheses_inhabited :
   (forall c, ex_print c = true -> is_break c = false) /\ (forall t, ex_no t = true -> ex_no t = true).
 Proof. exact oracle_hypotheses_inhabited. Qed.
 Print Assumptions C11_oracle_hypotheses_inhabited.
+
+(* ---------------- whole documents (Yaml/Doc.v) ---------------- *)
+From Verif Require Import Yaml.Doc Yaml.DocProofs.
+
+(* block structure: for EVERY document (any nesting of sequences and mappings, empty
+   collections anywhere, any scalars, any keys) the block parser inverts the token layout
+   the encoder's printer produces ("- " entries in column c, nodes in column c + 2, compact
+   "- - x" / "- k: v", [] and {} inline) *)
+Theorem C11_doc_structure_roundtrip : forall d, parse_toks (emit_toks 0 d) = Some d.
+Proof. exact parse_emit_toks. Qed.
+Print Assumptions C11_doc_structure_roundtrip.
+
+(* compositionality: in any column, in front of any continuation of an enclosing block,
+   the node reads back in place and the continuation is left untouched *)
+Theorem C11_doc_structure_embedded : forall d c rest,
+  rest_lt c rest -> parse_node (need d) 0 (emit_toks c d ++ rest) = Some (d, rest).
+Proof. exact parse_emit_toks_embedded. Qed.
+Print Assumptions C11_doc_structure_embedded.
+
+(* an inline string value (after "key: " / "- ") in the style the encoder chooses reads back
+   as that string, outside the classes of style_gap *)
+Theorem C11_value_string_roundtrip_when :
+  forall (is_print : N -> bool) (tok_number tok_isnumber tok_timestamp : str -> bool),
+  (forall c, is_print c = true -> is_break c = false) ->
+  (forall t, tok_number t = true -> tok_isnumber t = true) ->
+  forall multi n s, Forall rune32 s ->
+    choose_style tok_number tok_isnumber tok_timestamp false multi s <> Literal ->
+    style_gap is_print false (choose_style tok_number tok_isnumber tok_timestamp false multi s) s = false ->
+    read_value tok_number (emit is_print (choose_style tok_number tok_isnumber tok_timestamp false multi s) n s) = Some (DStr s).
+Proof. exact read_value_string_when. Qed.
+Print Assumptions C11_value_string_roundtrip_when.
+
+(* type preservation: whatever the string (also inside style_gap), its text never reads
+   back as null / bool / number / bytes / a collection *)
+Theorem C11_value_string_type_preserved :
+  forall (is_print : N -> bool) (tok_number tok_isnumber tok_timestamp : str -> bool),
+  (forall c, is_print c = true -> is_break c = false) ->
+  (forall t, tok_number t = true -> tok_isnumber t = true) ->
+  forall multi n s d, Forall rune32 s ->
+    choose_style tok_number tok_isnumber tok_timestamp false multi s <> Literal ->
+    read_value tok_number (emit is_print (choose_style tok_number tok_isnumber tok_timestamp false multi s) n s) = Some d ->
+    exists s', d = DStr s'.
+Proof. exact read_value_string_type. Qed.
+Print Assumptions C11_value_string_type_preserved.
+
+(* non-vacuity: a nested document with compact entries and empty collections *)
+Example C11_doc_structure_example :
+  emit_toks 0 (DMap [([97], DSeq [DSeq [DInt [49]]; DMap [([98], DSeq [])]]); ([99], DMap [])])
+  = [TKey 0 [97]; TDash 2; TDash 4; TVal (DInt [49]); TDash 2; TKey 4 [98]; TVal (DSeq []); TKey 0 [99]; TVal (DMap [])].
+Proof. exact doc_structure_example. Qed.
+Print Assumptions C11_doc_structure_example.
